@@ -675,6 +675,17 @@ pub struct TOptSkip {
     pub skipped: u64,
 }
 
+/// optional fields that are also renamed
+#[derive(Clone, Debug, PartialEq, DbType)]
+pub struct TRenOpt {
+    pub db_id: Option<DbId>,
+    #[agdb(rename = "nick")]
+    pub nickname: Option<String>,
+    pub plain: String,
+    #[agdb(rename = "cnt")]
+    pub count: Option<u64>,
+}
+
 /// element type with an optional field before a mandatory one
 #[derive(Clone, Debug, PartialEq, agdb::DbElement)]
 pub struct ENote {
@@ -724,6 +735,16 @@ impl KeepOnUpdate for TFlat {}
 impl KeepOnUpdate for EUser {}
 impl KeepOnUpdate for EOrg {}
 impl KeepOnUpdate for TOptFirst {}
+impl KeepOnUpdate for TRenOpt {
+    fn keep_omitted(&mut self, old: &Self) {
+        if self.nickname.is_none() {
+            self.nickname = old.nickname.clone();
+        }
+        if self.count.is_none() {
+            self.count = old.count;
+        }
+    }
+}
 impl KeepOnUpdate for TOptMid {
     fn keep_omitted(&mut self, old: &Self) {
         if self.nickname.is_none() {
@@ -929,7 +950,7 @@ fn t_flat(seed: u64) -> TFlat {
 }
 
 fn c22_case(c: &TypeCase) -> CaseResult {
-    let mut ci = match c.kind % 12 {
+    let mut ci = match c.kind % 13 {
         0 => roundtrip_type::<TPlain, _, _, _>(c, t_plain, |v, id| v.db_id = Some(id), |v| v.db_id, true, false),
         1 => roundtrip_type::<TVecs, _, _, _>(
             c,
@@ -972,6 +993,14 @@ fn c22_case(c: &TypeCase) -> CaseResult {
             true,
             false,
         ),
+        11 => roundtrip_type::<TRenOpt, _, _, _>(
+            c,
+            |s| build((prop::option::of(any_string()), any_string(), prop::option::of(any_u64())).prop_map(|(nickname, plain, count)| TRenOpt { db_id: None, nickname, plain, count }), s),
+            |v, id| v.db_id = Some(id),
+            |v| v.db_id,
+            true,
+            false,
+        ),
         _ => roundtrip_type::<ENote, _, _, _>(
             c,
             |s| build((prop::option::of(any_string()), any_string()).prop_map(|(note, name)| ENote { db_id: None, note, name }), s),
@@ -981,18 +1010,18 @@ fn c22_case(c: &TypeCase) -> CaseResult {
             true,
         ),
     }?;
-    ci.nontrivial = c.seeds.len() >= 2 || matches!(c.kind % 12, 1 | 2 | 3 | 8 | 9 | 10 | 11);
+    ci.nontrivial = c.seeds.len() >= 2 || matches!(c.kind % 13, 1 | 2 | 3 | 8 | 9 | 10 | 11 | 12);
     Ok(ci)
 }
 
 pub fn c22(ctx: &mut Ctx) {
-    ctx.rule = "a corpus of 12 derived types (DbType with db_id as Option<DbId> / Option<QueryId> / DbId / absent; optional fields first, in the middle, last and before a skipped field; every supported scalar incl. i32/u32/f32/bool; String; all vector types incl. Vec<bool> and Vec<i32>; Option fields of scalars, vectors and custom values; nested custom value types through DbValue+DbSerialize derive and vectors of them through DbTypeMarker; flatten, rename, skip; three DbElement types) with arbitrary field values (None options, empty vectors, boundary strings, float bit patterns), 1-5 values per case in a database that also holds an unrelated element with overlapping keys. Inserted singly (insert().nodes().values(&v), insert().element(&v)) and in batches, read back through select().elements::<T>().ids(..) and select().values(T::db_keys()).ids(..) + try_into; one element is updated through its db_id. Oracle: every value reads back equal (Debug text, floats exact incl. f32 through f64), the update changes exactly that element (all other elements byte-identical), DbElement typed searches return only that type. evaluations = values stored. Non-trivial: >=2 values in the case or a type with vectors / options / custom values. Distinct = hash of the case.".into();
+    ctx.rule = "a corpus of 13 derived types (DbType with db_id as Option<DbId> / Option<QueryId> / DbId / absent; optional fields first, in the middle, last, before a skipped field, and renamed; every supported scalar incl. i32/u32/f32/bool; String; all vector types incl. Vec<bool> and Vec<i32>; Option fields of scalars, vectors and custom values; nested custom value types through DbValue+DbSerialize derive and vectors of them through DbTypeMarker; flatten, rename, skip; three DbElement types) with arbitrary field values (None options, empty vectors, boundary strings, float bit patterns), 1-5 values per case in a database that also holds an unrelated element with overlapping keys. Inserted singly (insert().nodes().values(&v), insert().element(&v)) and in batches, read back through select().elements::<T>().ids(..) and select().values(T::db_keys()).ids(..) + try_into; one element is updated through its db_id. Oracle: every value reads back equal (Debug text, floats exact incl. f32 through f64), the update changes exactly that element (all other elements byte-identical), DbElement typed searches return only that type. evaluations = values stored. Non-trivial: >=2 values in the case or a type with vectors / options / custom values. Distinct = hash of the case.".into();
     let cases = ctx.tier.pick(60_000, 600_000);
     replay_saved::<TypeCase, _>(ctx, "c22-types", c22_case);
     run_campaign(
         ctx,
         CampaignCfg { name: "c22-types", cases, max_shrink_iters: 1500, max_restarts: 3 },
-        || (0u8..12, prop::collection::vec(any::<u64>(), 1..5), any::<u8>(), any::<u16>()).prop_map(|(kind, seeds, batch, update_sel)| TypeCase { kind, seeds, batch, update_sel }),
+        || (0u8..13, prop::collection::vec(any::<u64>(), 1..5), any::<u8>(), any::<u16>()).prop_map(|(kind, seeds, batch, update_sel)| TypeCase { kind, seeds, batch, update_sel }),
         c22_case,
     );
 }
